@@ -356,8 +356,9 @@ impl Prop for C03 {
             seams::fired(fault_kind(f));
             // an AUTHENTIC PREFIX ending on a chunk edge (last chunks dropped): every remaining chunk verifies and format
             // v1 has no authenticated end, so the reader cannot tell it from a complete stream (known finding, DESIGN 12)
-            // (also when fewer than 16 stray bytes follow the edge: too short to hold a tag, they are never read)
-            let on_edge = altered.len() >= hlen && altered.len() < image.len() && image.starts_with(&altered) && (altered.len() - hlen) % (chunk + 16) < 16;
+            // (also when at most 16 stray bytes follow the edge: a tag's worth with no ciphertext byte; seek(End) maps no plaintext
+            // position into them, so they are never read)
+            let on_edge = altered.len() >= hlen && altered.len() < image.len() && image.starts_with(&altered) && (altered.len() - hlen) % (chunk + 16) <= 16;
             let fk: String = if on_edge { format!("authentic-prefix-on-chunk-edge|{}", fault_kind(f)) } else { fault_kind(f).to_string() };
             let out = s.read(Rc::new(altered), &rcfg, &rops);
             ctx.eval();
